@@ -23,6 +23,13 @@ func makeTlsConfig(cfg *TlsConfig, requireCert bool) (*tls.Config, error) {
 			return nil, fmt.Errorf("failed to load ca, %w", err)
 		}
 		c.RootCAs = pool
+		c.ClientCAs = pool
+	}
+	if cfg.VerifyClientCert {
+		if c.ClientCAs == nil {
+			return nil, errors.New("verify_client_cert requires a ca")
+		}
+		c.ClientAuth = tls.RequireAndVerifyClientCert
 	}
 
 	if cfg.DebugUseTempCert {
